@@ -2,6 +2,7 @@ package h
 
 import (
 	"context"
+	"errors"
 
 	"cosmossdk.io/math"
 	sdk "github.com/cosmos/cosmos-sdk/types"
@@ -18,6 +19,8 @@ import (
 func init() {
 	reg("H_C09_actions", H_C09_actions)
 }
+
+var errRevert = errors.New("a later message of the transaction failed")
 
 var actionNames = []string{"ACTION_FEE", "ACTION_SWAP", "ACTION_UNSUPPORTED", "ACTION_NOPE", ""}
 
@@ -70,24 +73,32 @@ func H_C09_actions() {
 		a := actionOfName(nameK)
 		evBefore := len(w.Ev.list)
 		var err error
+		// the message may be part of a transaction that fails afterwards: pause state changes only through SUCCESSFUL messages
+		reverted := verif.Bool("transaction-reverted-afterwards")
 		if verif.Bool("msg-is-pause") {
-			err = verif.Atomically(w.Ctx, func(ctx sdk.Context) error {
-				_, e := ms.PauseAction(ctx, &executortypes.MsgPauseAction{Signer: authorityAddr.String(), ActionId: actionNames[nameK]})
-				return e
+			_ = verif.Atomically(w.Ctx, func(ctx sdk.Context) error {
+				_, err = ms.PauseAction(ctx, &executortypes.MsgPauseAction{Signer: authorityAddr.String(), ActionId: actionNames[nameK]})
+				if err == nil && reverted {
+					return errRevert
+				}
+				return err
 			})
 			want := a != 0 && !ref[a]
 			verif.Assert((err == nil) == want, "pause-action-result")
-			if want {
+			if want && !reverted {
 				ref[a] = true
 			}
 		} else {
-			err = verif.Atomically(w.Ctx, func(ctx sdk.Context) error {
-				_, e := ms.UnpauseAction(ctx, &executortypes.MsgUnpauseAction{Signer: authorityAddr.String(), ActionId: actionNames[nameK]})
-				return e
+			_ = verif.Atomically(w.Ctx, func(ctx sdk.Context) error {
+				_, err = ms.UnpauseAction(ctx, &executortypes.MsgUnpauseAction{Signer: authorityAddr.String(), ActionId: actionNames[nameK]})
+				if err == nil && reverted {
+					return errRevert
+				}
+				return err
 			})
 			want := a != 0 && ref[a]
 			verif.Assert((err == nil) == want, "unpause-action-result")
-			if want {
+			if want && !reverted {
 				ref[a] = false
 			}
 		}
